@@ -20,7 +20,7 @@ import c17
 from sa import core, hints, own, terms as tm
 from sa.terms import T
 from sa.pyfront import Program
-from sa.symex import Interp
+from sa.symex import Interp, flat_guards
 
 RULES = {
     "R-C06-a": "no method writes storage reachable from a non-receiver operand; non-mutating methods do not write the receiver either",
@@ -416,9 +416,24 @@ def rule_g(prog, rep):
         orows = tm.T("sub", tm.T("attr", other, "shape"), tm.const(0))
         oks = restok and first in (tm.T("binop", "+", old_rows, orows), tm.T("binop", "+", orows, old_rows))
     rep.check(oks, "R-C06-g", where, "append: new shape = (old rows + other's rows,) + remaining extents", "", "shape after append is %s" % (sh and tm.show(sh[0]["value"])[:80]))
-    # the shift is computed BEFORE the shape changes
-    oko = bool(sh) and all(e.seq < sh[0].seq for e in st)
-    rep.check(oko, "R-C06-g", where, "append: all rows are shifted before the shape is updated", "", "shape is updated before the stores: the shift would use the new row count")
+    # early exits: other's common rows (entry-less rows) must still be appended
+    for ev in I.events:
+        if ev.kind != "return" or ev.stack or ev.node.__class__.__name__ != "Return":
+            continue
+        g = flat_guards(ev.guards)
+        w = "%s@%d" % (where, ev.line)
+        no_rows = any((pol and c.op == "cmp" and c.args[0] == "==" and tm.is_const(c.args[2], 0) and c.args[1] == tm.T("sub", tm.T("attr", other, "shape"), tm.const(0)))
+                      or (not pol and c == tm.T("sub", tm.T("attr", other, "shape"), tm.const(0))) for c, pol in g)
+        entries_only = any((c == other and not pol) or (c.op == "call" and tm.callee_name(c) == "builtins.len" and c.args[1][0] == other and not pol)
+                           or (c.op == "cmp" and c.args[0] == "==" and pol and c.args[1].op == "call" and tm.callee_name(c.args[1]) == "builtins.len" and c.args[1].args[1][0] == other and tm.is_const(c.args[2], 0)) for c, pol in g)
+        if no_rows:
+            rep.proved("R-C06-g", w, "append: early return", "taken only when other has no rows")
+        elif entries_only:
+            rep.violated("R-C06-g", w, "append: early return when other has no explicit entries",
+                         "an index without entries still has rows (all equal to its common value); when other.common differs from the receiver's they must be appended as entries",
+                         witness={"inputs": "iindex.from_array([1, 1, 2, 1]).append(iindex({}, 7, (3,))) reads [1,1,2,1,1,1,1] instead of [1,1,2,1,7,7,7]"})
+        else:
+            rep.undecided("R-C06-g", w, "append: early return", "cannot decide whether rows of other are lost on this path")
     rep.floor("R-C06-g", 8, n)
 
 
